@@ -173,32 +173,53 @@ def run_harness(pid, tier, seed, extra=None, timeout=3000):
     return json.load(open(os.path.join(out, "run.json"))), log
 
 
-def eval_cases(pid, files, jobs=8, timeout=3000):
-    """coqc each case file; returns (mismatching ids, errors)."""
+def eval_cases(pid, files, jobs=12, timeout=420):
+    """coqc each case file. A file prints `mism = [...]`: either a list of ids (disagreement
+    with the model) or a list of triples (id, m, s): m/s = 0 agree, 1 disagree, 2 out of fuel,
+    against the model M and the reference semantics S.
+    Returns dict(model=[ids], spec=[ids], dropped=[ids]), errors."""
     d = os.path.join(WORK, pid)
 
     def one(f):
-        rc, out = sh(["coqc", "-Q", COQ, "PV", os.path.join(d, f)], timeout=timeout)
+        try:
+            rc, out = sh(["coqc", "-Q", COQ, "PV", os.path.join(d, f)], timeout=timeout)
+        except subprocess.TimeoutExpired:
+            return f, None, "evaluation of the model on this shard did not finish within %d s" % timeout
         if rc != 0:
             return f, None, out[-3000:]
-        m = re.search(r"mism\s*=\s*\[(.*?)\]\s*:", out, flags=re.S)
+        m = re.search(r"mism\s*=\s*\[(.*?)\]\s*:\s*list", out, flags=re.S)
         if not m:
             return f, None, out[-3000:]
         body = m.group(1).strip()
-        ids = [int(x.strip().strip("()%Z").replace("(", "").replace(")", "")) for x in body.split(";")] if body else []
-        return f, ids, ""
+        res = {"model": [], "spec": [], "dropped": []}
+        if not body:
+            return f, res, ""
+        if "(" in body and "," in body:
+            for t in re.findall(r"\(\s*(-?\d+)\s*,\s*(-?\d+)\s*,\s*(-?\d+)\s*\)", body):
+                i, mm, ss = int(t[0]), int(t[1]), int(t[2])
+                if mm == 1:
+                    res["model"].append(i)
+                if ss == 1:
+                    res["spec"].append(i)
+                if mm == 2 or ss == 2:
+                    res["dropped"].append(i)
+        else:
+            res["model"] = [int(x) for x in re.findall(r"-?\d+", body)]
+        return f, res, ""
 
-    ids, errs = [], []
+    tot = {"model": [], "spec": [], "dropped": []}
+    errs = []
     with ThreadPoolExecutor(max_workers=jobs) as ex:
         for f, r, e in ex.map(one, files):
             if r is None:
                 errs.append("%s: %s" % (f, e))
             else:
-                ids += r
+                for k in tot:
+                    tot[k] += r[k]
     for f in glob.glob(os.path.join(d, "cases_*.vo")) + glob.glob(os.path.join(d, "cases_*.glob")) + \
             glob.glob(os.path.join(d, "cases_*.vok")) + glob.glob(os.path.join(d, "cases_*.vos")) + glob.glob(os.path.join(d, ".cases_*.aux")):
         os.remove(f)
-    return ids, errs
+    return tot, errs
 
 
 def known_findings(pid):
@@ -256,22 +277,36 @@ def check(pid, tier, seed, spec):
         assum = assumptions(pid, names)
         if not assum["ok"]:
             broken.append("Print Assumptions failed")
-    # implementation side + oracle
-    run, hlog = run_harness(pid, tier, seed)
+    # implementation side + oracle + model/spec evaluation of the same cases
+    def explore(tier_, seed_):
+        run_, hlog_ = run_harness(pid, tier_, seed_)
+        if run_ is None:
+            return None, hlog_, [], [], [], [], False
+        mism_, cerrs_, spec_ids_, dropped_ = [], [], [], []
+        unavailable = False
+        if run_.get("case_files"):
+            if all(vo_ok(f) for f in spec.get("model_deps", [])):
+                tot, cerrs_ = eval_cases(pid, run_["case_files"])
+                mism_, spec_ids_, dropped_ = tot["model"], tot["spec"], tot["dropped"]
+            else:
+                unavailable = True
+        fails_ = list(run_.get("oracle_failures") or [])
+        # cases on which the implementation disagrees with the reference semantics S are failing
+        # inputs of the property itself (whether or not the model M agrees with the implementation)
+        for i in spec_ids_:
+            fails_.append({"id": i, "class": spec.get("spec_class", pid + ":differs-from-reference-semantics"),
+                           "input": run_["cases"].get(str(i)), "observed": "see replay (answers of the implementation)",
+                           "expected": "the answers of the reference semantics S (Model/Sld.v)",
+                           "detail": "model M %s with the implementation on this case" % ("also disagrees" if i in mism_ else "agrees")})
+        mism_ = [i for i in mism_ if i not in spec_ids_]
+        return run_, hlog_, mism_, cerrs_, fails_, dropped_, unavailable
+
+    run, hlog, mism, cerrs, fails, dropped, corr_unavailable = explore(tier, seed)
     if run is None:
         print(hlog[-3000:])
         print("ERROR property=%s harness failed" % pid)
         return 2
-    mism, cerrs = [], []
-    corr_unavailable = False
-    if run.get("case_files"):
-        needed = spec.get("model_deps", [])
-        if all(vo_ok(f) for f in needed):
-            mism, cerrs = eval_cases(pid, run["case_files"])
-        else:
-            corr_unavailable = True
     known = known_findings(pid)
-    fails = run.get("oracle_failures", [])
     new = [f for f in fails if f["class"] not in known]
     hit = sorted(set(f["class"] for f in fails if f["class"] in known))
     exit_code = 0
@@ -301,9 +336,9 @@ def check(pid, tier, seed, spec):
             what.append({"forbidden_constructs": bad})
         found = None
         if tier == "quick" and spec.get("search", True):
-            run2, _ = run_harness(pid, "thorough", seed + 1)
+            run2, _, _, _, fails2, _, _ = explore("thorough", seed + 1)
             if run2:
-                new2 = [f for f in run2.get("oracle_failures", []) if f["class"] not in known]
+                new2 = [f for f in fails2 if f["class"] not in known]
                 if new2:
                     found = new2[0]
         if found:
@@ -333,6 +368,7 @@ def check(pid, tier, seed, spec):
             "rule": run.get("rule", ""), "samples": run.get("samples", [])[:12],
             "distribution": run.get("distribution", {}),
             "correspondence_mismatches": len(mism), "oracle_failures": len(fails),
+            "cases_dropped_out_of_fuel": len(dropped),
             "known_findings_reproduced": hit,
             "explanation": spec.get("explanation", ""),
             "notes": notes + run.get("notes", []),
